@@ -20,7 +20,7 @@
 //!   cnv_prepare_left L X mask | cnv_prepare_right R X mask | cnv_prepare_self L R X mask
 //!   cnv_apply_dft off D dc L lc R rc | cnv_pairwise off D dc L R i j | cnv_by_const off B bc X xc c,c,…
 //!   big_normalize X xc res_base2k res_offset B bc a_base2k
-//!   dump X
+//!   dump X | raw X            (raw: the stored `u64` words of a dft / svp / vmp / cnvl / cnvr buffer)
 use std::collections::HashMap;
 use std::io::{BufRead, Write};
 
@@ -400,6 +400,28 @@ macro_rules! hal_backend {
                             panic!("dump: unknown buffer {name}");
                         }
                         out.push_str(&format!(" {name}={cols}x{size}:{}", if vals.is_empty() { "-".to_string() } else { vals.join(",") }));
+                    }
+                    "raw" => {
+                        // the raw `u64` words of a transform-domain buffer (NTT120: q120b residues, word `4·i + k` of a limb =
+                        // prime `k`, coefficient slot `i`; FFT64: the `f64` bit patterns), limb-major as stored
+                        use poulpy_hal::layouts::DataView;
+                        let name = st[1];
+                        let bytes: Vec<u8> = if let Some(v) = dfts.get(name) {
+                            v.data().as_ref().to_vec()
+                        } else if let Some(v) = svps.get(name) {
+                            v.data().as_ref().to_vec()
+                        } else if let Some(v) = vmps.get(name) {
+                            v.data().as_ref().to_vec()
+                        } else if let Some(v) = cnvls.get(name) {
+                            v.data().as_ref().to_vec()
+                        } else if let Some(v) = cnvrs.get(name) {
+                            v.data().as_ref().to_vec()
+                        } else {
+                            panic!("raw: unknown buffer {name}");
+                        };
+                        let words: Vec<String> =
+                            bytes.chunks_exact(8).map(|c| u64::from_le_bytes(c.try_into().unwrap()).to_string()).collect();
+                        out.push_str(&format!(" {name}=raw:{}", if words.is_empty() { "-".to_string() } else { words.join(",") }));
                     }
                     other => panic!("unknown statement {other}"),
                 }
